@@ -342,6 +342,352 @@ theorem flcSph_formula_sq_le_one (sqrt : α → α) (hs : SqrtOk sqrt) (eps : α
     simp only [this, if_false, Bool.false_eq_true]
     simp [ordOps]
 
+/-- the box sum of the constant 1 is the number of voxels -/
+theorem sumShape_one : ∀ (ms : List Nat), sumShape ms (fun _ => (1 : α)) = ((prodL ms : Nat) : α)
+  | [] => by simp [sumShape, prodL]
+  | m :: ms => by
+    simp only [sumShape, prodL, sumShape_one ms]
+    induction m with
+    | zero => simp [sumRange]
+    | succ k ih => simp only [sumRange, ih]; push_cast; ring
+
+/-- **CORR / CAM with the full-box mask** (the default when no template mask is given; CAM is CORR on the
+standardised target): the value of the code's formula (`corr_setup` + `corr_scoring`, Model/C01.scoreCORR on
+windowed sums, incl. its `eps` guard) is in [-1, 1] for every target, translation, template and every rotation that
+permutes the box (`RotSum`: identity, all grid rotations).  Here the numerator is `Σ f·H − (Σ f)·mean(H)` and the
+denominator `sqrt((Σ f² − (Σ f)²/n)·Σ (H − mean)²)` with `H` the rotated standardised template — Cauchy–Schwarz
+directly, no division by a template deviation. -/
+theorem corr_formula_sq_le_one_fullmask (sqrt : α → α) (hs : SqrtOk sqrt) (eps : α) (he0 : 0 < eps)
+    (ms : List Nat) (t : List Int) (rot : (List Int → α) → (List Int → α)) (hr : RotSum ms rot)
+    (f f2 g Wm : List Int → α) (hf2 : ∀ x, f2 x = f x * f x)
+    (hfull : ∀ k, inShape ms k = true → Wm (natsToInts k) = 1) (hpos : 0 < prodL ms) :
+    (scoreCORR (ordOps sqrt eps) (fun a b => corrSpec ms a b t) ms rot f f2 g Wm) ^ 2 ≤ 1 := by
+  set o := ordOps sqrt eps with ho
+  have e_n : maskSum o ms Wm = ((prodL ms : Nat) : α) := by
+    unfold maskSum; rw [ho, boxSum_ord, ← sumShape_one ms]
+    exact sumShape_congr ms _ _ (fun k hk => hfull k hk)
+  set n : α := ((prodL ms : Nat) : α) with hn
+  have hnpos : 0 < n := by rw [hn]; exact_mod_cast hpos
+  have hnn : n ≠ 0 := ne_of_gt hnpos
+  set st := normStats o ms g Wm n with hst
+  set gh : List Int → α := normT o st g Wm with hgh
+  set g2 : List Int → α := fun x => o.mul (gh x) (Wm x) with hg2
+  set H : List Int → α := rot g2 with hH
+  -- the window: weights 1, a = target window, h = rotated standardised template
+  set W : Win α := ⟨ms, fun _ => 1, fun k => f (specIdx ms t k), fun k => H (natsToInts k)⟩ with hW
+  have hw' : ∀ k, inShape W.ms k = true → 0 ≤ W.w k := fun _ _ => zero_le_one
+  have hWn : W.n = n := by show sumShape ms (fun _ => (1 : α)) = n; rw [sumShape_one]
+  have hWnn : W.n ≠ 0 := by rw [hWn]; exact hnn
+  -- g2 = gh on the box
+  have g2box : ∀ k, inShape ms k = true → g2 (natsToInts k) = gh (natsToInts k) := by
+    intro k hk; simp [hg2, ho, ordOps, hfull k hk]
+  -- mean of the standardised template = mean of its rotation
+  have e_mean : o.div (boxSum o ms (fun k => o.mul (gh (natsToInts k)) (Wm (natsToInts k)))) n = W.mu := by
+    rw [ho, boxSum_ord]
+    show sumShape ms (fun k => gh (natsToInts k) * Wm (natsToInts k)) / n = W.mu
+    unfold Win.mu; rw [hWn]
+    have : sumShape ms (fun k => gh (natsToInts k) * Wm (natsToInts k)) = sumShape ms (fun k => g2 (natsToInts k)) :=
+      sumShape_congr ms _ _ (fun k hk => by simp [hg2, ho, ordOps])
+    rw [this, ← hr.sum g2]
+    congr 1
+    exact sumShape_congr ms _ _ (fun k _ => by simp [hW, hH])
+  -- Σ (gh − mean)² = Σ (H − mean)²
+  have e_ssd : boxSum o ms (fun k => o.mul (o.sq (o.sub (gh (natsToInts k)) W.mu)) (Wm (natsToInts k))) = W.B := by
+    rw [ho, boxSum_ord]
+    have h1 : sumShape ms (fun k => (ordOps sqrt eps).mul ((ordOps sqrt eps).sq ((ordOps sqrt eps).sub (gh (natsToInts k)) W.mu)) (Wm (natsToInts k)))
+        = sumShape ms (fun k => (fun x => (g2 x - W.mu) * (g2 x - W.mu)) (natsToInts k)) :=
+      sumShape_congr ms _ _ (fun k hk => by
+        simp only [ordOps, Ops.sq]; rw [hfull k hk, g2box k hk]; ring)
+    rw [h1, ← hr.sum (fun x => (g2 x - W.mu) * (g2 x - W.mu))]
+    have h2 := hr.map2 (fun a _ => (a - W.mu) * (a - W.mu)) g2 g2
+    unfold Win.B
+    apply sumShape_congr; intro k _
+    have := congrFun h2 (natsToInts k)
+    beta_reduce at this
+    rw [← this]
+    exact (one_mul _).symm
+  have hms : W.ms = ms := rfl
+  have e_ws : corrSpec ms f Wm t = sumShape W.ms (fun k => W.w k * W.a k) := by
+    rw [hms]; unfold corrSpec; apply sumShape_congr; intro k hk; rw [hfull k hk]; exact (mul_comm _ _)
+  have e_s2 : corrSpec ms f2 Wm t = sumShape W.ms (fun k => W.w k * (W.a k * W.a k)) := by
+    rw [hms]; unfold corrSpec; apply sumShape_congr; intro k hk; rw [hfull k hk, hf2]; exact (mul_comm _ _)
+  have e_fH : corrSpec ms f H t = sumShape W.ms (fun k => W.w k * (W.a k * W.h k)) := by
+    rw [hms]; unfold corrSpec; apply sumShape_congr; intro k _; exact (one_mul _).symm
+  -- denominator factor on the target side
+  have e_den0 : o.sub (corrSpec ms f2 Wm t) (o.div (o.sq (corrSpec ms f Wm t)) (o.ofNat (prodL ms))) = W.A := by
+    have := W.var_formula_a hWnn
+    rw [e_ws, e_s2]
+    have hof : o.ofNat (prodL ms) = n := rfl
+    rw [hof]
+    simp only [ho, ordOps, Ops.sq]
+    rw [hWn] at this
+    have h3 : W.A = (sumShape W.ms (fun k => W.w k * (W.a k * W.a k)) / n
+        - (sumShape W.ms (fun k => W.w k * W.a k) / n) ^ 2) * n := by rw [this]; field_simp
+    rw [h3]; field_simp
+  -- numerator
+  have e_num : o.sub (corrSpec ms f H t) (o.mul (corrSpec ms f Wm t) W.mu) = W.N := by
+    rw [e_ws, e_fH]
+    unfold Win.N
+    have e : (fun k => W.w k * (W.a k * (W.h k - W.mu)))
+        = fun k => W.w k * (W.a k * W.h k) - W.mu * (W.w k * W.a k) := by funext k; ring
+    rw [e, sumShape_sub, sumShape_mul_left W.ms W.mu (fun k => W.w k * W.a k)]
+    simp only [ho, ordOps]; ring
+  have hAB : 0 ≤ W.A * W.B := mul_nonneg (W.A_nonneg hw') (W.B_nonneg hw')
+  unfold scoreCORR
+  simp only [← ho, e_n, ← hst, ← hgh, e_mean, e_ssd, e_den0, e_num, ← hH, ← hg2]
+  have hmul : o.mul W.A W.B = W.A * W.B := rfl
+  have hmax : o.max0 (W.A * W.B) = W.A * W.B := max0_of_nonneg sqrt eps _ hAB
+  rw [hmul, hmax]
+  have hsq : o.sqrt (W.A * W.B) = sqrt (W.A * W.B) := rfl
+  rw [hsq]
+  generalize hden : sqrt (W.A * W.B) = den
+  have hdd : den * den = W.A * W.B := by rw [← hden]; exact hs.sq _ hAB
+  by_cases hg : eps < den
+  · have : o.lt o.eps den = true := by simp [ho, ordOps, hg]
+    simp only [this, if_true]
+    have hdpos : 0 < den := lt_trans he0 hg
+    have e : o.mul W.N (o.div o.one den) = W.N / den := by simp [ho, ordOps]; ring
+    rw [e, div_pow, div_le_one (by positivity)]
+    have := W.num_sq_le hw' hWnn
+    nlinarith
+  · have : o.lt o.eps den = false := by simp [ho, ordOps, hg]
+    simp only [this, if_false, Bool.false_eq_true]
+    simp [ho, ordOps]
+
+/-- the same for every one of the 24 grid rotations admissible for a 3-D box (and `rotSum_grid2`, `rotSum_id`
+give 2-D and the identity) -/
+theorem corr_formula_sq_le_one_grid3 (sqrt : α → α) (hs : SqrtOk sqrt) (eps : α) (he0 : 0 < eps)
+    (R : GridRot) (a b c : Nat) (hR : GridOk3 R a b c) (t : List Int)
+    (f f2 g Wm : List Int → α) (hf2 : ∀ x, f2 x = f x * f x)
+    (hfull : ∀ k, inShape [a, b, c] k = true → Wm (natsToInts k) = 1) (hpos : 0 < prodL [a, b, c]) :
+    (scoreCORR (ordOps sqrt eps) (fun u v => corrSpec [a, b, c] u v t) [a, b, c] (rotF R [a, b, c]) f f2 g Wm) ^ 2 ≤ 1 :=
+  corr_formula_sq_le_one_fullmask sqrt hs eps he0 [a, b, c] t _ (rotSum_grid3 R a b c hR) f f2 g Wm hf2 hfull hpos
+
+/-- a non-negative number with the right square is the square root -/
+theorem SqrtOk.unique {sqrt : α → α} (hs : SqrtOk sqrt) (x t : α) (hx : 0 ≤ x) (ht : 0 ≤ t) (h : t * t = x) : sqrt x = t := by
+  have h1 := hs.sq x hx
+  have h0 := hs.nonneg x
+  have : (sqrt x - t) * (sqrt x + t) = 0 := by ring_nf; nlinarith
+  rcases mul_eq_zero.mp this with h2 | h2
+  · linarith
+  · have : sqrt x = 0 ∧ t = 0 := by constructor <;> linarith
+    rw [this.1, this.2]
+
+/-- the value of the code's FLC formula in closed form, in terms of the window sums -/
+theorem flc_value (sqrt : α → α) (hs : SqrtOk sqrt) (eps : α)
+    (ms : List Nat) (t : List Int) (f f2 G Wm : List Int → α) (hf2 : ∀ x, f2 x = f x * f x)
+    (hw : ∀ k, inShape ms k = true → 0 ≤ Wm (natsToInts k))
+    (hn : 0 < sumShape ms (fun k => Wm (natsToInts k)))
+    (hvar : 0 < (Win.mk ms (fun k => Wm (natsToInts k)) (fun k => f (specIdx ms t k)) (fun k => G (natsToInts k))).B) :
+    scoreFLC (ordOps sqrt eps) (fun a b => corrSpec ms a b t) ms f f2 G Wm
+      = ((Win.mk ms (fun k => Wm (natsToInts k)) (fun k => f (specIdx ms t k)) (fun k => G (natsToInts k))).N
+          / sqrt ((Win.mk ms (fun k => Wm (natsToInts k)) (fun k => f (specIdx ms t k)) (fun k => G (natsToInts k))).B
+                  / (Win.mk ms (fun k => Wm (natsToInts k)) (fun k => f (specIdx ms t k)) (fun k => G (natsToInts k))).n))
+        / ((if sqrt ((Win.mk ms (fun k => Wm (natsToInts k)) (fun k => f (specIdx ms t k)) (fun k => G (natsToInts k))).A
+                  / (Win.mk ms (fun k => Wm (natsToInts k)) (fun k => f (specIdx ms t k)) (fun k => G (natsToInts k))).n) < eps
+            then 1
+            else sqrt ((Win.mk ms (fun k => Wm (natsToInts k)) (fun k => f (specIdx ms t k)) (fun k => G (natsToInts k))).A
+                  / (Win.mk ms (fun k => Wm (natsToInts k)) (fun k => f (specIdx ms t k)) (fun k => G (natsToInts k))).n))
+           * (Win.mk ms (fun k => Wm (natsToInts k)) (fun k => f (specIdx ms t k)) (fun k => G (natsToInts k))).n) := by
+  obtain ⟨e_n, e_st, e_num, e_sd, -, -, -, -, -, -⟩ := flc_core sqrt hs eps ms t f f2 G Wm hf2 hw hn hvar
+  unfold scoreFLC
+  simp only [e_n, e_st, e_num, e_sd]
+  by_cases h : sqrt ((Win.mk ms (fun k => Wm (natsToInts k)) (fun k => f (specIdx ms t k)) (fun k => G (natsToInts k))).A
+      / (Win.mk ms (fun k => Wm (natsToInts k)) (fun k => f (specIdx ms t k)) (fun k => G (natsToInts k))).n) < eps
+  · have hl : (ordOps sqrt eps).lt (sqrt ((Win.mk ms (fun k => Wm (natsToInts k)) (fun k => f (specIdx ms t k)) (fun k => G (natsToInts k))).A
+      / (Win.mk ms (fun k => Wm (natsToInts k)) (fun k => f (specIdx ms t k)) (fun k => G (natsToInts k))).n)) (ordOps sqrt eps).eps = true := by
+      simp [ordOps, h]
+    simp only [hl, if_true, if_pos h]
+    simp [ordOps]
+  · have hl : (ordOps sqrt eps).lt (sqrt ((Win.mk ms (fun k => Wm (natsToInts k)) (fun k => f (specIdx ms t k)) (fun k => G (natsToInts k))).A
+      / (Win.mk ms (fun k => Wm (natsToInts k)) (fun k => f (specIdx ms t k)) (fun k => G (natsToInts k))).n)) (ordOps sqrt eps).eps = false := by
+      simp [ordOps, h]
+    simp only [hl, if_false, Bool.false_eq_true, if_neg h]
+    simp [ordOps]
+
+/-- the same statement for an abstract window: what target scaling does to the closed form -/
+theorem Win.flc_closed_affine (W : Win α) (sqrt : α → α) (hs : SqrtOk sqrt) (eps c d : α) (hc : 0 < c)
+    (hw : ∀ k, inShape W.ms k = true → 0 ≤ W.w k) (hn : 0 < W.n)
+    (hg : ¬ sqrt (W.A / W.n) < eps) (hg' : ¬ c * sqrt (W.A / W.n) < eps) :
+    ((W.affA c d).N / sqrt ((W.affA c d).B / (W.affA c d).n))
+        / ((if sqrt ((W.affA c d).A / (W.affA c d).n) < eps then 1 else sqrt ((W.affA c d).A / (W.affA c d).n)) * (W.affA c d).n)
+      = (W.N / sqrt (W.B / W.n)) / ((if sqrt (W.A / W.n) < eps then 1 else sqrt (W.A / W.n)) * W.n) := by
+  have hnn : W.n ≠ 0 := ne_of_gt hn
+  obtain ⟨hN2, hA2, hB2⟩ := W.target_affine c d hnn
+  have hn2 : (W.affA c d).n = W.n := rfl
+  have hAn : 0 ≤ W.A / W.n := div_nonneg (W.A_nonneg hw) (le_of_lt hn)
+  have hsq : sqrt ((W.affA c d).A / (W.affA c d).n) = c * sqrt (W.A / W.n) := by
+    rw [hA2, hn2]
+    apply hs.unique
+    · have : c * c * W.A / W.n = c * c * (W.A / W.n) := by ring
+      rw [this]; positivity
+    · exact mul_nonneg (le_of_lt hc) (hs.nonneg _)
+    · have := hs.sq _ hAn
+      calc c * sqrt (W.A / W.n) * (c * sqrt (W.A / W.n)) = c * c * (sqrt (W.A / W.n) * sqrt (W.A / W.n)) := by ring
+        _ = c * c * W.A / W.n := by rw [this]; ring
+  rw [hsq, hN2, hB2, hn2, if_neg hg, if_neg hg']
+  have hcne : c ≠ 0 := ne_of_gt hc
+  by_cases h0 : sqrt (W.A / W.n) = 0
+  · simp [h0]
+  · by_cases h1 : sqrt (W.B / W.n) = 0
+    · simp [h1]
+    · field_simp
+
+/-- **Intensity invariance of the FLC formula itself** (not only of its ingredients): replacing the target by
+`c·f + d` with `c > 0` leaves the value of the code's formula unchanged, for every translation, template and
+non-negative mask — as long as neither window falls under the code's *absolute* low-variance guard (`sd ≥ eps` before
+and after; inside the guard the code deliberately returns the un-normalised value, which is what the float32 finding
+at large offsets and the seeded "guard on the variance" changes are about). -/
+theorem flc_formula_target_affine_invariant (sqrt : α → α) (hs : SqrtOk sqrt) (eps : α)
+    (ms : List Nat) (t : List Int) (f G Wm : List Int → α) (c d : α) (hc : 0 < c)
+    (hw : ∀ k, inShape ms k = true → 0 ≤ Wm (natsToInts k))
+    (hn : 0 < sumShape ms (fun k => Wm (natsToInts k)))
+    (hvar : 0 < (Win.mk ms (fun k => Wm (natsToInts k)) (fun k => f (specIdx ms t k)) (fun k => G (natsToInts k))).B)
+    (hg : ¬ sqrt ((Win.mk ms (fun k => Wm (natsToInts k)) (fun k => f (specIdx ms t k)) (fun k => G (natsToInts k))).A
+                / (Win.mk ms (fun k => Wm (natsToInts k)) (fun k => f (specIdx ms t k)) (fun k => G (natsToInts k))).n) < eps)
+    (hg' : ¬ c * sqrt ((Win.mk ms (fun k => Wm (natsToInts k)) (fun k => f (specIdx ms t k)) (fun k => G (natsToInts k))).A
+                / (Win.mk ms (fun k => Wm (natsToInts k)) (fun k => f (specIdx ms t k)) (fun k => G (natsToInts k))).n) < eps) :
+    scoreFLC (ordOps sqrt eps) (fun a b => corrSpec ms a b t) ms (fun x => c * f x + d) (fun x => (c * f x + d) * (c * f x + d)) G Wm
+      = scoreFLC (ordOps sqrt eps) (fun a b => corrSpec ms a b t) ms f (fun x => f x * f x) G Wm := by
+  have hnn : (Win.mk ms (fun k => Wm (natsToInts k)) (fun k => f (specIdx ms t k)) (fun k => G (natsToInts k))).n ≠ 0 :=
+    ne_of_gt hn
+  have haff := (Win.mk ms (fun k => Wm (natsToInts k)) (fun k => f (specIdx ms t k)) (fun k => G (natsToInts k))).target_affine c d hnn
+  have hvar' : 0 < (Win.mk ms (fun k => Wm (natsToInts k)) (fun k => (fun x => c * f x + d) (specIdx ms t k))
+      (fun k => G (natsToInts k))).B := by
+    have : (Win.mk ms (fun k => Wm (natsToInts k)) (fun k => (fun x => c * f x + d) (specIdx ms t k)) (fun k => G (natsToInts k)))
+        = (Win.mk ms (fun k => Wm (natsToInts k)) (fun k => f (specIdx ms t k)) (fun k => G (natsToInts k))).affA c d := rfl
+    rw [this, haff.2.2]; exact hvar
+  rw [flc_value sqrt hs eps ms t f _ G Wm (fun _ => rfl) hw hn hvar,
+      flc_value sqrt hs eps ms t (fun x => c * f x + d) _ G Wm (fun _ => rfl) hw hn hvar']
+  exact Win.flc_closed_affine (Win.mk ms (fun k => Wm (natsToInts k)) (fun k => f (specIdx ms t k)) (fun k => G (natsToInts k)))
+    sqrt hs eps c d hc hw hn hg hg'
+
+/-- **A planted copy scores exactly 1 in the code's FLC formula**: when the target window at translation `t` equals
+the (rotated) template wherever the (rotated) mask is non-zero and the window is not under the low-variance guard, the
+formula's value is 1 — and by `flc_formula_sq_le_one` no other value of the map exceeds it. -/
+theorem flc_formula_planted_eq_one (sqrt : α → α) (hs : SqrtOk sqrt) (eps : α)
+    (ms : List Nat) (t : List Int) (f G Wm : List Int → α)
+    (hw : ∀ k, inShape ms k = true → 0 ≤ Wm (natsToInts k))
+    (hn : 0 < sumShape ms (fun k => Wm (natsToInts k)))
+    (hvar : 0 < (Win.mk ms (fun k => Wm (natsToInts k)) (fun k => f (specIdx ms t k)) (fun k => G (natsToInts k))).B)
+    (hplant : ∀ k, inShape ms k = true → Wm (natsToInts k) * f (specIdx ms t k) = Wm (natsToInts k) * G (natsToInts k))
+    (hg : ¬ sqrt ((Win.mk ms (fun k => Wm (natsToInts k)) (fun k => f (specIdx ms t k)) (fun k => G (natsToInts k))).B
+                / (Win.mk ms (fun k => Wm (natsToInts k)) (fun k => f (specIdx ms t k)) (fun k => G (natsToInts k))).n) < eps) :
+    scoreFLC (ordOps sqrt eps) (fun a b => corrSpec ms a b t) ms f (fun x => f x * f x) G Wm = 1 := by
+  rw [flc_value sqrt hs eps ms t f _ G Wm (fun _ => rfl) hw hn hvar]
+  generalize hWdef : (Win.mk ms (fun k => Wm (natsToInts k)) (fun k => f (specIdx ms t k)) (fun k => G (natsToInts k))) = W at *
+  have hn' : 0 < W.n := by rw [← hWdef]; exact hn
+  have hp : ∀ k, inShape W.ms k = true → W.w k * W.a k = W.w k * W.h k := by rw [← hWdef]; exact hplant
+  have hw' : ∀ k, inShape W.ms k = true → 0 ≤ W.w k := by rw [← hWdef]; exact hw
+  have hBn : 0 ≤ W.B / W.n := div_nonneg (W.B_nonneg hw') (le_of_lt hn')
+  have hσσ : sqrt (W.B / W.n) * sqrt (W.B / W.n) = W.B / W.n := hs.sq _ hBn
+  have hσpos : 0 < sqrt (W.B / W.n) := by
+    rcases (hs.nonneg (W.B / W.n)).lt_or_eq with h | h
+    · exact h
+    · exfalso
+      have : W.B / W.n = 0 := by rw [← hσσ, ← h]; ring
+      rcases div_eq_zero_iff.mp this with h' | h'
+      · rw [h'] at hvar; exact lt_irrefl _ hvar
+      · exact (ne_of_gt hn') h'
+  obtain ⟨_, hAB, h1⟩ := W.planted_eq_one hp hn' (sqrt (W.B / W.n)) hσpos hσσ
+  rw [hAB, if_neg hg]
+  exact h1
+
+/-- **MCC (Padfield) before clipping is already in [-1, 1].**  For a binary template mask `W` (`W² = W`, rotated or not),
+any non-negative target mask `tm` (with `fm = f·tm`, `fm2 = f²·tm`, as the code builds them from a 0/1 target mask) and a
+mask overlap above the code's `eps` guard, the numerator and denominator the code computes per voxel satisfy
+`num² ≤ den²` — Cauchy–Schwarz with the weights `tm(t+k)·W(k)`.  So in exact arithmetic the final clip of
+`mcc_scoring` never changes a value; it only absorbs rounding. -/
+theorem mcc_parts_cauchy_schwarz (sqrt : α → α) (hs : SqrtOk sqrt) (eps : α) (he0 : 0 < eps)
+    (ms : List Nat) (t : List Int) (f fm fm2 tm G W : List Int → α)
+    (hfm : ∀ x, fm x = f x * tm x) (hfm2 : ∀ x, fm2 x = f x * f x * tm x)
+    (htm : ∀ x, 0 ≤ tm x)
+    (hW0 : ∀ k, inShape ms k = true → 0 ≤ W (natsToInts k))
+    (hWb : ∀ k, inShape ms k = true → W (natsToInts k) * W (natsToInts k) = W (natsToInts k))
+    (hov : ¬ corrSpec ms tm W t < eps) :
+    (mccParts (ordOps sqrt eps) (fun a b => corrSpec ms a b t) ms fm fm2 tm G W).1 ^ 2
+      ≤ (mccParts (ordOps sqrt eps) (fun a b => corrSpec ms a b t) ms fm fm2 tm G W).2.1 ^ 2 := by
+  generalize hst : normStats (ordOps sqrt eps) ms G W (maskSum (ordOps sqrt eps) ms W) = st
+  -- the window with weights u = tm(t+k)·W(k)
+  have key : ∀ V : Win α, V = ⟨ms, fun k => tm (specIdx ms t k) * W (natsToInts k), fun k => f (specIdx ms t k),
+      fun k => (G (natsToInts k) - st.1) / st.2⟩ →
+      (mccParts (ordOps sqrt eps) (fun a b => corrSpec ms a b t) ms fm fm2 tm G W).1 ^ 2
+        ≤ (mccParts (ordOps sqrt eps) (fun a b => corrSpec ms a b t) ms fm fm2 tm G W).2.1 ^ 2 := by
+    intro V hV
+    have hVms : V.ms = ms := by rw [hV]
+    have hVw : ∀ k, V.w k = tm (specIdx ms t k) * W (natsToInts k) := by intro k; rw [hV]
+    have hVa : ∀ k, V.a k = f (specIdx ms t k) := by intro k; rw [hV]
+    have hVh : ∀ k, V.h k = (G (natsToInts k) - st.1) / st.2 := by intro k; rw [hV]
+    have hw' : ∀ k, inShape V.ms k = true → 0 ≤ V.w k := by
+      intro k hk; rw [hVw]; rw [hVms] at hk; exact mul_nonneg (htm _) (hW0 k hk)
+    -- the six correlation sums in terms of the window
+    have e_ov : corrSpec ms tm W t = V.n := by
+      unfold corrSpec Win.n; rw [hVms]; apply sumShape_congr; intro k _; rw [hVw]
+    have e_t : corrSpec ms fm W t = sumShape V.ms (fun k => V.w k * V.a k) := by
+      unfold corrSpec; rw [hVms]; apply sumShape_congr; intro k _; rw [hVw, hVa, hfm]; ring
+    have e_t2 : corrSpec ms tm (normT (ordOps sqrt eps) st G W) t = sumShape V.ms (fun k => V.w k * V.h k) := by
+      unfold corrSpec; rw [hVms]; apply sumShape_congr; intro k _
+      rw [hVw, hVh]; simp only [normT, normApply, ordOps]; ring
+    have e_n0 : corrSpec ms fm (normT (ordOps sqrt eps) st G W) t = sumShape V.ms (fun k => V.w k * (V.a k * V.h k)) := by
+      unfold corrSpec; rw [hVms]; apply sumShape_congr; intro k _
+      rw [hVw, hVa, hVh, hfm]; simp only [normT, normApply, ordOps]; ring
+    have e_f2 : corrSpec ms fm2 W t = sumShape V.ms (fun k => V.w k * (V.a k * V.a k)) := by
+      unfold corrSpec; rw [hVms]; apply sumShape_congr; intro k _; rw [hVw, hVa, hfm2]; ring
+    have e_h2 : corrSpec ms tm (fun x => (ordOps sqrt eps).sq (normT (ordOps sqrt eps) st G W x)) t
+        = sumShape V.ms (fun k => V.w k * (V.h k * V.h k)) := by
+      unfold corrSpec; rw [hVms]; apply sumShape_congr; intro k hk
+      rw [hVw, hVh]; simp only [normT, normApply, ordOps, Ops.sq]
+      have := hWb k hk
+      calc tm (specIdx ms t k) * ((G (natsToInts k) - st.1) / st.2 * W (natsToInts k) * ((G (natsToInts k) - st.1) / st.2 * W (natsToInts k)))
+          = tm (specIdx ms t k) * ((G (natsToInts k) - st.1) / st.2 * ((G (natsToInts k) - st.1) / st.2)) * (W (natsToInts k) * W (natsToInts k)) := by ring
+        _ = _ := by rw [this]; ring
+    have hnpos : 0 < V.n := by rw [← e_ov]; exact lt_of_lt_of_le he0 (not_lt.mp hov)
+    have hnn : V.n ≠ 0 := ne_of_gt hnpos
+    have hg : (ordOps sqrt eps).lt V.n (ordOps sqrt eps).eps = false := by
+      have : ¬ V.n < eps := by rw [← e_ov]; exact hov
+      simp [ordOps, this]
+    -- numerator and the two variance terms
+    have eN : sumShape V.ms (fun k => V.w k * (V.a k * V.h k))
+        - sumShape V.ms (fun k => V.w k * V.a k) * sumShape V.ms (fun k => V.w k * V.h k) / V.n = V.N := by
+      unfold Win.N Win.mu
+      have e : (fun k => V.w k * (V.a k * (V.h k - sumShape V.ms (fun k => V.w k * V.h k) / V.n)))
+          = fun k => V.w k * (V.a k * V.h k) - (sumShape V.ms (fun k => V.w k * V.h k) / V.n) * (V.w k * V.a k) := by
+        funext k; ring
+      rw [e, sumShape_sub, sumShape_mul_left V.ms _ (fun k => V.w k * V.a k)]
+      field_simp
+    have eA : sumShape V.ms (fun k => V.w k * (V.a k * V.a k)) - (sumShape V.ms (fun k => V.w k * V.a k)) ^ 2 / V.n = V.A := by
+      have := V.var_formula_a hnn
+      have h3 : V.A = (sumShape V.ms (fun k => V.w k * (V.a k * V.a k)) / V.n
+          - (sumShape V.ms (fun k => V.w k * V.a k) / V.n) ^ 2) * V.n := by rw [this]; field_simp
+      rw [h3]; field_simp
+    have eB : sumShape V.ms (fun k => V.w k * (V.h k * V.h k)) - (sumShape V.ms (fun k => V.w k * V.h k)) ^ 2 / V.n = V.B := by
+      have := V.var_formula_h hnn
+      have h3 : V.B = (sumShape V.ms (fun k => V.w k * (V.h k * V.h k)) / V.n
+          - (sumShape V.ms (fun k => V.w k * V.h k) / V.n) ^ 2) * V.n := by rw [this]; field_simp
+      rw [h3]; field_simp
+    have hA0 := V.A_nonneg hw'
+    have hB0 := V.B_nonneg hw'
+    unfold mccParts
+    simp only [hst, e_ov, e_t, e_t2, e_n0, e_f2, e_h2]
+    simp only [hg, if_false, Bool.false_eq_true]
+    have e1 : (ordOps sqrt eps).sub (sumShape V.ms fun k => V.w k * (V.a k * V.h k))
+        ((ordOps sqrt eps).div ((ordOps sqrt eps).mul (sumShape V.ms fun k => V.w k * V.a k) (sumShape V.ms fun k => V.w k * V.h k)) V.n)
+        = V.N := eN
+    have e2 : (ordOps sqrt eps).sub (sumShape V.ms fun k => V.w k * (V.a k * V.a k))
+        ((ordOps sqrt eps).div ((ordOps sqrt eps).sq (sumShape V.ms fun k => V.w k * V.a k)) V.n) = V.A := by
+      rw [← eA]; simp only [ordOps, Ops.sq]; ring
+    have e3 : (ordOps sqrt eps).sub (sumShape V.ms fun k => V.w k * (V.h k * V.h k))
+        ((ordOps sqrt eps).div ((ordOps sqrt eps).sq (sumShape V.ms fun k => V.w k * V.h k)) V.n) = V.B := by
+      rw [← eB]; simp only [ordOps, Ops.sq]; ring
+    rw [e1, e2, e3, max0_of_nonneg sqrt eps _ hA0, max0_of_nonneg sqrt eps _ hB0]
+    have hAB : 0 ≤ V.A * V.B := mul_nonneg hA0 hB0
+    have hsq : (ordOps sqrt eps).sqrt ((ordOps sqrt eps).mul V.A V.B) ^ 2 = V.A * V.B := by
+      show sqrt (V.A * V.B) ^ 2 = V.A * V.B
+      rw [pow_two]; exact hs.sq _ hAB
+    rw [hsq]
+    exact V.num_sq_le hw' hnn
+  exact key _ rfl
+
 end flc
 
 /-- **strict improvement keeps the first best rotation**: a later submission that only ties does not replace
